@@ -70,6 +70,7 @@ import (
 	"k8s.io/klog/v2"
 	fakeclock "k8s.io/utils/clock/testing"
 	"k8s.io/utils/ptr"
+	ctrl "sigs.k8s.io/controller-runtime"
 	"sigs.k8s.io/controller-runtime/pkg/client"
 	"sigs.k8s.io/controller-runtime/pkg/client/fake"
 	"sigs.k8s.io/controller-runtime/pkg/client/interceptor"
@@ -144,11 +145,53 @@ type c17JobCfg struct {
 	NeedPreempt  bool          `json:"need_preemption"`  // the reservation object answers NeedPreemption()==true
 	PreemptCalls int           `json:"preempt_calls"`    // Preempt reports completion on this call
 	CreatedBy    bool          `json:"created_by_annot"` // carries AnnotationJobCreatedBy of the first reconciler
+	// real-interpreter unit only: "" = the controller creates the reservation; "name-only" / "name-uid" = the job
+	// points at a Reservation that already exists (created by the user = the environment), by name without /
+	// with its uid. UserResInit is the state that Reservation is in when the history starts.
+	UserRes     string `json:"user_supplied_ref,omitempty"`
+	UserResInit string `json:"user_reservation_init,omitempty"`
 }
 
 type c17Cfg struct {
 	Jobs       []c17JobCfg `json:"jobs"`
 	Preemption bool        `json:"preemption_interpreter"`
+	Real       bool        `json:"real_interpreter"`
+}
+
+// c17GenCfgReal: configuration of a case of the real-interpreter unit (no preemption: the shipped
+// interpreter has none; TTLs are common because TTL clean-up through the real DeleteReservation is the point).
+func c17GenCfgReal(r *kit.Rand) *c17Cfg {
+	cfg := &c17Cfg{Real: true}
+	n := 1
+	if r.Pct(40) {
+		n = 2
+	}
+	for i := 0; i < n; i++ {
+		j := c17JobCfg{
+			Name:         fmt.Sprintf("job-%d", i),
+			PodName:      fmt.Sprintf("pod-%d", i),
+			PodNode:      kit.Pick(r, c17Nodes),
+			ExplicitMode: r.Pct(70),
+			PendingPod:   r.Pct(8),
+		}
+		switch r.Weighted(15, 55, 30) {
+		case 1:
+			j.TTL = c17TTLShort
+		case 2:
+			j.TTL = c17TTLLong
+		}
+		switch r.Weighted(35, 40, 25) {
+		case 1:
+			j.UserRes = "name-only"
+		case 2:
+			j.UserRes = "name-uid"
+		}
+		if j.UserRes != "" {
+			j.UserResInit = kit.Pick(r, []string{"pending", "pending", "pending", "pending", "scheduled-other", "scheduled-other", "scheduled-same"})
+		}
+		cfg.Jobs = append(cfg.Jobs, j)
+	}
+	return cfg
 }
 
 func c17GenCfg(r *kit.Rand) *c17Cfg {
@@ -264,7 +307,9 @@ func (e *c17Res) render() *sev1alpha1.Reservation {
 		r.Status.NodeName = e.node
 		r.Status.Conditions = []sev1alpha1.ReservationCondition{schedTrue,
 			{Type: sev1alpha1.ReservationConditionReady, Status: sev1alpha1.ConditionStatusFalse, Reason: sev1alpha1.ReasonReservationSucceeded}}
-		r.Status.CurrentOwners = []corev1.ObjectReference{*e.bound}
+		if e.bound != nil {
+			r.Status.CurrentOwners = []corev1.ObjectReference{*e.bound}
+		}
 	case c17ResExpired:
 		r.Status.Phase = sev1alpha1.ReservationFailed
 		r.Status.NodeName = e.node
@@ -278,6 +323,51 @@ func (e *c17Res) render() *sev1alpha1.Reservation {
 	}
 	return r
 }
+
+// c17Classify reads the environment state back from a Reservation object of the API store (real-interpreter
+// unit: the store IS the reservation). Written from the API type's documentation, not with the controller's
+// predicates.
+func c17Classify(o *sev1alpha1.Reservation) *c17Res {
+	e := &c17Res{name: o.Name, uid: o.UID, meta: *o.ObjectMeta.DeepCopy(), spec: *o.Spec.DeepCopy(), node: o.Status.NodeName, touched: o.Status.Phase != ""}
+	unsched, expired := false, false
+	for _, c := range o.Status.Conditions {
+		if c.Type == sev1alpha1.ReservationConditionScheduled && c.Status == sev1alpha1.ConditionStatusFalse && c.Reason == sev1alpha1.ReasonReservationUnschedulable {
+			unsched, e.msg = true, c.Message
+		}
+		if c.Type == sev1alpha1.ReservationConditionReady && c.Reason == sev1alpha1.ReasonReservationExpired {
+			expired = true
+		}
+	}
+	switch o.Status.Phase {
+	case "", sev1alpha1.ReservationPending:
+		e.state = c17ResPending
+		if unsched {
+			e.state = c17ResPendingUnsched
+		}
+	case sev1alpha1.ReservationAvailable:
+		e.state = c17ResScheduled
+	case sev1alpha1.ReservationSucceeded:
+		e.state = c17ResBound
+		if len(o.Status.CurrentOwners) > 0 {
+			e.bound = o.Status.CurrentOwners[0].DeepCopy()
+		}
+	default:
+		e.state = c17ResUnsched
+		if expired {
+			e.state = c17ResExpired
+		}
+	}
+	return e
+}
+
+// c17Mgr is the part of ctrl.Manager the shipped reservation interpreter uses (GetClient, GetAPIReader).
+type c17Mgr struct {
+	ctrl.Manager
+	cl client.Client
+}
+
+func (m *c17Mgr) GetClient() client.Client    { return m.cl }
+func (m *c17Mgr) GetAPIReader() client.Reader { return m.cl }
 
 type c17ResObj struct {
 	reservation.Object
@@ -326,6 +416,7 @@ type c17Job struct {
 	preemptProgress int
 	preemptDone     bool
 	afterTerminal   int
+	attempts        int
 }
 
 type c17Step struct {
@@ -364,6 +455,8 @@ type c17World struct {
 	writeLog   []string
 	stepWrites []string
 
+	real   bool // real-interpreter unit: reservation.NewInterpreter over the faulty client; the store is the reservation
+	uidGen int
 	direct bool
 	label  string
 	log    []string
@@ -416,7 +509,7 @@ func c17Variant(f func()) (aborted bool) {
 
 func c17NewWorld(c *kit.Case, cfg *c17Cfg, faultAt int, kind c17Fault) *c17World {
 	c17Setup()
-	w := &c17World{c: c, cfg: cfg, ctx: context.Background(), faultAt: faultAt, faultKind: kind, podGen: map[string]int{}}
+	w := &c17World{c: c, cfg: cfg, ctx: context.Background(), faultAt: faultAt, faultKind: kind, podGen: map[string]int{}, real: cfg.Real}
 	if faultAt == 0 {
 		w.label = "fault-free"
 	} else {
@@ -448,6 +541,31 @@ func c17NewWorld(c *kit.Case, cfg *c17Cfg, faultAt int, kind c17Fault) *c17World
 		}
 		if jc.CreatedBy {
 			job.Annotations = map[string]string{AnnotationJobCreatedBy: "reconciler-1"}
+		}
+		if jc.UserRes != "" {
+			// the user's Reservation exists before the job; it is built the way the controller would build one
+			// (owners of the pod, allocate-once) but carries no reservation-order label and its own uid
+			ur := &c17Res{name: w.resName(j), uid: types.UID(w.resName(j) + "-uid"), state: c17ResPending,
+				meta: metav1.ObjectMeta{Name: w.resName(j), Labels: map[string]string{"app": "user"}},
+				spec: sev1alpha1.ReservationSpec{AllocateOnce: ptr.To(true), Owners: reservation.GenerateReserveResourceOwners(pod),
+					Template: &corev1.PodTemplateSpec{ObjectMeta: metav1.ObjectMeta{Labels: map[string]string{"app": jc.PodName}}, Spec: *pod.Spec.DeepCopy()}}}
+			ur.spec.Template.Spec.NodeName = ""
+			switch jc.UserResInit {
+			case "scheduled-other":
+				ur.state, ur.touched, ur.node = c17ResScheduled, true, w.ring(jc.PodNode, 1)
+			case "scheduled-same":
+				if !jc.PendingPod {
+					ur.state, ur.touched, ur.node = c17ResScheduled, true, jc.PodNode
+				}
+			}
+			if err := w.store.Create(w.ctx, ur.render()); err != nil {
+				c.Harness("create user reservation: %v", err)
+			}
+			ref := &corev1.ObjectReference{Kind: "Reservation", APIVersion: sev1alpha1.GroupVersion.String(), Name: ur.name}
+			if jc.UserRes == "name-uid" {
+				ref.UID = ur.uid
+			}
+			job.Spec.ReservationOptions = &sev1alpha1.PodMigrateReservationOptions{ReservationRef: ref}
 		}
 		if err := w.store.Create(w.ctx, job); err != nil {
 			c.Harness("create job: %v", err)
@@ -494,7 +612,7 @@ func (w *c17World) restart() {
 		Client:                 w.faulty,
 		args:                   c17Args,
 		eventRecorder:          &events.FakeRecorder{},
-		reservationInterpreter: &c17Interp{w: w},
+		reservationInterpreter: w.interpreter(),
 		evictorInterpreter:     &c17Evictor{w: w},
 		controllerFinder:       &fakeControllerFinder{replicas: 3},
 		assumedCache:           newAssumedCache(),
@@ -508,7 +626,60 @@ func (w *c17World) restart() {
 var (
 	c17JobGVR = sev1alpha1.GroupVersion.WithResource("podmigrationjobs")
 	c17PodGVR = corev1.SchemeGroupVersion.WithResource("pods")
+	c17ResGVR = sev1alpha1.GroupVersion.WithResource("reservations")
 )
+
+func (w *c17World) interpreter() reservation.Interpreter {
+	if w.real {
+		// exactly what newReconciler does, over the client the controller itself uses (so the interpreter's
+		// Create / Delete of Reservation objects are API writes that can fail)
+		return reservation.NewInterpreter(&c17Mgr{cl: w.faulty})
+	}
+	return &c17Interp{w: w}
+}
+
+// resName is the name of "the job's reservation": the user's object, or the name the controller always
+// creates it with (the template default, the job UID).
+func (w *c17World) resName(j *c17Job) string {
+	if j.cfg.UserRes != "" {
+		return "ures-" + j.cfg.Name
+	}
+	return string(j.uid)
+}
+
+// res returns the environment's truth about the job's reservation at this instant: the scripted
+// interpreter's state, or (real-interpreter unit) the object in the API store, classified. nil = absent.
+func (w *c17World) res(j *c17Job) *c17Res {
+	if !w.real {
+		return j.res
+	}
+	obj, err := w.tracker.Get(c17ResGVR, "", w.resName(j))
+	if apierrors.IsNotFound(err) {
+		return nil
+	}
+	if err != nil {
+		w.c.Harness("get reservation: %v", err)
+	}
+	return c17Classify(obj.(*sev1alpha1.Reservation))
+}
+
+// commit publishes an environment change of the reservation (real-interpreter unit: the scheduler / the
+// user writes the object in the API store, not through the controller's client).
+func (w *c17World) commit(r *c17Res) {
+	if !w.real {
+		return
+	}
+	obj := r.render()
+	if r.state == c17ResDeleted {
+		if err := w.store.Delete(w.ctx, obj); err != nil {
+			w.c.Harness("delete reservation: %v", err)
+		}
+		return
+	}
+	if err := w.store.Update(w.ctx, obj); err != nil {
+		w.c.Harness("update reservation status: %v", err)
+	}
+}
 
 // storedJob / storedPod read the API store directly from the object tracker (a deep copy, without the
 // fake client's JSON round trip).
@@ -605,13 +776,19 @@ func (w *c17World) checkJobs(stepEnd bool) {
 		j.lastPhase, j.lastReason = cur.Status.Phase, cur.Status.Reason
 		if stepEnd && cur.Status.Phase == sev1alpha1.PodMigrationJobFailed && cur.Status.Reason == sev1alpha1.PodMigrationJobReasonTimeout {
 			w.c.Count("ttl_cleanup_checks", 1)
-			if j.res.live() {
+			if w.real {
+				w.c.Count("ttl_cleanup_checks_real_interpreter", 1)
+				if j.cfg.UserRes == "name-only" {
+					w.c.Count("ttl_cleanup_checks_user_ref_without_uid", 1)
+				}
+			}
+			if r := w.res(j); r.live() {
 				sig := "C17/ttl/reservation-not-deleted"
 				if cur.Spec.ReservationOptions == nil || cur.Spec.ReservationOptions.ReservationRef == nil {
 					sig = "C17/ttl/reservation-not-deleted/ref-not-persisted"
 				}
-				w.fail(sig, "job %s is stored as Failed/Timeout but the reservation %q created for it still exists in state %s (stored job: %s)",
-					j.cfg.Name, j.res.name, j.res, c17JobBrief(cur))
+				w.fail(sig, "job %s is stored as Failed/Timeout but its reservation %q (uid %q) still exists in state %s (stored job: %s)",
+					j.cfg.Name, r.name, r.uid, r, c17JobBrief(cur))
 			}
 			if j.res != nil {
 				w.c.Count("ttl_failed_with_reservation_deleted", 1)
@@ -644,6 +821,15 @@ func (w *c17World) newFaultyClient() client.WithWatch {
 	inject := func(kind string, obj client.Object, do func(o client.Object) error) error {
 		desc := kind + " " + c17ObjDesc(obj)
 		_, isJob := obj.(*sev1alpha1.PodMigrationJob)
+		if _, isRes := obj.(*sev1alpha1.Reservation); isRes && kind == "Create" {
+			// real-interpreter unit: this is the interpreter's CreateReservation
+			for _, j := range w.jobs {
+				if j.cfg.UserRes == "" && string(j.uid) == obj.GetName() {
+					w.callGuard(j, "CreateReservation")
+					w.c.Count("create_reservation_calls", 1)
+				}
+			}
+		}
 		switch w.write(desc) {
 		case c17FaultFail:
 			return c17Injected(desc)
@@ -665,7 +851,13 @@ func (w *c17World) newFaultyClient() client.WithWatch {
 	}
 	return interceptor.NewClient(w.store, interceptor.Funcs{
 		Create: func(ctx context.Context, cl client.WithWatch, obj client.Object, opts ...client.CreateOption) error {
-			return inject("Create", obj, func(o client.Object) error { return cl.Create(ctx, o, opts...) })
+			return inject("Create", obj, func(o client.Object) error {
+				if o.GetUID() == "" { // the API server assigns the uid (the fake client does not)
+					w.uidGen++
+					o.SetUID(types.UID(fmt.Sprintf("%s-apiuid%d", o.GetName(), w.uidGen)))
+				}
+				return cl.Create(ctx, o, opts...)
+			})
 		},
 		Update: func(ctx context.Context, cl client.WithWatch, obj client.Object, opts ...client.UpdateOption) error {
 			return inject("Update", obj, func(o client.Object) error { return cl.Update(ctx, o, opts...) })
@@ -812,12 +1004,13 @@ func (e *c17Evictor) Evict(ctx context.Context, job *sev1alpha1.PodMigrationJob,
 	w := e.w
 	j := w.jobByName(job.Name)
 	stored := w.storedPod(j)
-	st := c17Stamp{Job: j.cfg.Name, Res: j.res.String(), PodUID: string(pod.UID), PodNode: pod.Spec.NodeName, StoredPod: c17PodBrief(stored),
+	r := w.res(j)
+	st := c17Stamp{Job: j.cfg.Name, Res: r.String(), PodUID: string(pod.UID), PodNode: pod.Spec.NodeName, StoredPod: c17PodBrief(stored),
 		PreemptDone: j.preemptDone, Fault: w.label}
 	st.Phase = string(w.callGuard(j, "Evict"))
 	w.stamps = append(w.stamps, st)
 	w.c.Count("evict_calls", 1)
-	w.op("      Evict(%s, pod %s@%q): reservation=%s preemptDone=%v storedPod=%s", j.cfg.Name, pod.UID, pod.Spec.NodeName, j.res, j.preemptDone, c17PodBrief(stored))
+	w.op("      Evict(%s, pod %s@%q): reservation=%s preemptDone=%v storedPod=%s", j.cfg.Name, pod.UID, pod.Spec.NodeName, r, j.preemptDone, c17PodBrief(stored))
 	if stored == nil || stored.UID != pod.UID || stored.Spec.NodeName != pod.Spec.NodeName {
 		// not a clause of C17 (and impossible while environment events stay between reconciles)
 		w.c.Count("evict_pod_differs_from_store", 1)
@@ -827,7 +1020,6 @@ func (e *c17Evictor) Evict(ctx context.Context, job *sev1alpha1.PodMigrationJob,
 	}
 
 	// ---- ordering clause, judged against the environment's own state at this instant
-	r := j.res
 	if !r.live() {
 		w.fail("C17/evict/reservation-missing", "Evict(%s) while the job's reservation is %s; stamp %+v", j.cfg.Name, r, st)
 	}
@@ -842,7 +1034,7 @@ func (e *c17Evictor) Evict(ctx context.Context, job *sev1alpha1.PodMigrationJob,
 	case c17ResExpired:
 		w.fail("C17/evict/reservation-expired", "Evict(%s) while the reservation is %s; stamp %+v", j.cfg.Name, r, st)
 	case c17ResBound:
-		if r.bound.UID != pod.UID {
+		if r.bound == nil || r.bound.UID != pod.UID {
 			w.fail("C17/evict/reservation-bound-other-pod", "Evict(%s) of pod %s while the reservation is %s; stamp %+v", j.cfg.Name, pod.UID, r, st)
 		}
 		w.c.Count("evict_while_bound_to_this_pod", 1)
@@ -857,6 +1049,9 @@ func (e *c17Evictor) Evict(ctx context.Context, job *sev1alpha1.PodMigrationJob,
 		w.fail(sig, "Evict(%s) of pod %s on node %q while the reservation is %s (same node); stamp %+v", j.cfg.Name, pod.UID, pod.Spec.NodeName, r, st)
 	}
 	w.c.Count("evict_ordering_checks", 1)
+	if w.real {
+		w.c.Count("evictions_checked_real_interpreter", 1)
+	}
 
 	// ---- at most once, fault-free only
 	j.evictCalls++
@@ -897,9 +1092,10 @@ func (w *c17World) ring(node string, by int) string {
 func (w *c17World) apply(i int, s c17Step) bool {
 	j := w.jobs[s.Job]
 	w.stepWrites = w.stepWrites[:0]
-	r := j.res
+	r := w.res(j)
 	pod := w.storedPod(j)
 	applied := true
+	resChanged := false
 	note := ""
 	switch s.Kind {
 	case "reconcile":
@@ -915,7 +1111,7 @@ func (w *c17World) apply(i int, s c17Step) bool {
 			w.c.Count("reconcile_errors", 1)
 		}
 		w.op("      -> requeueAfter=%v err=%v writes=[%s]", res.RequeueAfter, err, strings.Join(w.stepWrites, "; "))
-		w.op("      stored %s: %s | reservation=%s", j.cfg.Name, c17JobBrief(w.storedJob(j)), j.res)
+		w.op("      stored %s: %s | reservation=%s", j.cfg.Name, c17JobBrief(w.storedJob(j)), w.res(j))
 		w.checkJobs(true)
 		return true
 	case "res-unsched-retry":
@@ -923,8 +1119,9 @@ func (w *c17World) apply(i int, s c17Step) bool {
 			applied = false
 			break
 		}
-		r.attempts++
-		r.state, r.touched, r.msg = c17ResPendingUnsched, true, fmt.Sprintf("0/3 nodes are available (attempt %d)", r.attempts)
+		j.attempts++
+		r.state, r.touched, r.msg = c17ResPendingUnsched, true, fmt.Sprintf("0/3 nodes are available (attempt %d)", j.attempts)
+		resChanged = true
 	case "res-scheduled":
 		ok := r.live() && (r.state == c17ResPending || r.state == c17ResPendingUnsched || (r.state == c17ResUnsched && r.need && j.preemptDone))
 		if !ok {
@@ -950,25 +1147,29 @@ func (w *c17World) apply(i int, s c17Step) bool {
 			break
 		}
 		r.state, r.touched, r.node = c17ResScheduled, true, node
+		resChanged = true
 	case "res-unsched":
 		if !r.live() || (r.state != c17ResPending && r.state != c17ResPendingUnsched) {
 			applied = false
 			break
 		}
-		r.attempts++
-		r.state, r.touched, r.msg = c17ResUnsched, true, fmt.Sprintf("0/3 nodes are available (gave up after %d)", r.attempts)
+		j.attempts++
+		r.state, r.touched, r.msg = c17ResUnsched, true, fmt.Sprintf("0/3 nodes are available (gave up after %d)", j.attempts)
+		resChanged = true
 	case "res-expired":
 		if !r.live() || (r.state != c17ResPending && r.state != c17ResPendingUnsched && r.state != c17ResScheduled) {
 			applied = false
 			break
 		}
 		r.state, r.touched = c17ResExpired, true
+		resChanged = true
 	case "res-deleted":
 		if !r.live() {
 			applied = false
 			break
 		}
 		r.state = c17ResDeleted
+		resChanged = true
 	case "res-bound":
 		if !r.live() || r.state != c17ResScheduled {
 			applied = false
@@ -998,6 +1199,7 @@ func (w *c17World) apply(i int, s c17Step) bool {
 		}
 		if applied {
 			r.state = c17ResBound
+			resChanged = true
 		}
 	case "pod-scheduled":
 		if pod == nil || pod.Spec.NodeName != "" {
@@ -1067,9 +1269,12 @@ func (w *c17World) apply(i int, s c17Step) bool {
 	default:
 		w.c.Harness("unknown step %v", s)
 	}
+	if applied && resChanged {
+		w.commit(r)
+	}
 	if applied {
 		w.c.Count("env_"+s.Kind, 1)
-		w.op("%02d %s%s | reservation(%s)=%s", i, s, note, j.cfg.Name, j.res)
+		w.op("%02d %s%s | reservation(%s)=%s", i, s, note, j.cfg.Name, w.res(j))
 	} else {
 		w.c.Count("env_steps_skipped_inapplicable", 1)
 		w.op("%02d %s skipped (not applicable: reservation=%s pod=%s)", i, s, r, c17PodBrief(pod))
@@ -1103,7 +1308,7 @@ func (w *c17World) gen(r *kit.Rand) c17Step {
 		cs = append(cs, cand{c17Step{Kind: kind, Job: ji, Arg: arg}, weight})
 	}
 	add(60, "reconcile", "")
-	res := j.res
+	res := w.res(j)
 	pod := w.storedPod(j)
 	evicted := j.evictDone > 0
 	if res.live() {
@@ -1189,7 +1394,7 @@ func (w *c17World) finish() {
 			st = "evicted"
 		}
 		w.c.Seen(len(w.jobs), j.cfg.TTL, j.cfg.PendingPod, j.cfg.NeedPreempt, w.cfg.Preemption, final.Status.Phase, reason, final.Status.Status, j.evictCalls, st,
-			j.res.String(), w.faultKind, c17WriteClass(w.faultDesc), w.faultAfterEvict, j.afterTerminal > 0)
+			w.res(j).String(), w.real, j.cfg.UserRes, w.faultKind, c17WriteClass(w.faultDesc), w.faultAfterEvict, j.afterTerminal > 0)
 	}
 }
 
@@ -1206,83 +1411,110 @@ func c17WriteClass(desc string) string {
 
 // ---------------------------------------------------------------------------------------------
 
+// c17RunCase: one fault-free history generated adaptively, then every single-fault variant of it.
+func c17RunCase(c *kit.Case, cfg *c17Cfg) {
+	r := c.R
+	c.Op("cfg: %+v", *cfg)
+
+	// ---- fault-free history, generated adaptively
+	base := c17NewWorld(c, cfg, 0, c17NoFault)
+	base.direct = true
+	var script []c17Step
+	n := r.Range(6, 26-2*len(cfg.Jobs))
+	for i := 0; i < n; i++ {
+		if i >= 6 && base.allSettled() {
+			break // every job is terminal and has been reconciled after that: nothing more can happen
+		}
+		s := base.gen(r)
+		base.apply(len(script), s)
+		script = append(script, s)
+	}
+	for k := 0; k < 2; k++ {
+		for ji := range cfg.Jobs {
+			s := c17Step{Kind: "reconcile", Job: ji}
+			base.apply(len(script), s)
+			script = append(script, s)
+		}
+	}
+	base.finish()
+	c.Count("histories_fault_free", 1)
+	if cfg.Real {
+		c.Count("real_interpreter_histories", 1)
+		for _, j := range cfg.Jobs {
+			c.Count("jobs_with_reservation_"+map[string]string{"": "created_by_controller", "name-only": "user_supplied_ref_without_uid", "name-uid": "user_supplied_ref_with_uid"}[j.UserRes], 1)
+			if j.UserRes == "name-only" {
+				c.Count("jobs_with_user_supplied_ref_without_uid", 1)
+			}
+		}
+	}
+	c.Count("steps_fault_free", len(script))
+	c.Count("api_writes_fault_free", base.writes)
+	evicted, terminal, after := len(base.stamps) > 0, false, false
+	for _, j := range base.jobs {
+		terminal = terminal || c17Terminal(j.lastPhase)
+		after = after || j.afterTerminal > 0
+	}
+	if evicted {
+		c.Count("fault_free_histories_with_eviction", 1)
+	}
+	if evicted && terminal && after {
+		c.NonTrivial()
+	}
+	if c.K < 3 {
+		var ss []string
+		for _, s := range script {
+			ss = append(ss, s.String())
+		}
+		c.Sample(map[string]any{"cfg": cfg, "script": ss, "api_writes": base.writeLog, "evict_stamps": base.stamps})
+	}
+
+	// ---- every single-fault variant of that history
+	for k := 1; k <= base.writes; k++ {
+		for _, kind := range []c17Fault{c17FaultFail, c17FaultLost} {
+			v := c17NewWorld(c, cfg, k, kind)
+			aborted := c17Variant(func() {
+				for i, s := range script {
+					v.apply(i, s)
+				}
+				v.finish()
+			})
+			if aborted {
+				c.Count("faulty_histories_with_violation", 1)
+			}
+			if !v.faultHit || v.faultDesc != base.writeLog[k-1] {
+				c.Harness("variant %q did not reproduce the fault-free prefix: hit=%v at %q, expected %q", v.label, v.faultHit, v.faultDesc, base.writeLog[k-1])
+			}
+			c.Evals(1)
+			if cfg.Real {
+				c.Count("real_interpreter_histories", 1)
+			}
+			c.Count("fault_positions_enumerated", 1)
+			c.Count("fault_at_"+strings.NewReplacer(" ", "_", "/", "_").Replace(c17WriteClass(v.faultDesc))+"_"+kind.String(), 1)
+			if v.faultAfterEvict {
+				c.Count("fault_hit_write_right_after_eviction", 1)
+			}
+			if len(v.stamps) > 0 {
+				c.Count("faulty_histories_with_eviction", 1)
+			}
+		}
+	}
+}
+
 func TestVerifC17Reconcile(t *testing.T) {
-	kit.Run(t, kit.Config{Property: "C17", Unit: "reconcile", Quick: 600, Thorough: 20000,
+	kit.Run(t, kit.Config{Property: "C17", Unit: "reconcile", Quick: 480, Thorough: 20000,
 		Rule: "1-2 reservation-first jobs (TTL unset/15s/1h; 12% pending-pod mode; 25% with a scripted preemption interpreter), one fault-free history of 8-30 steps generated adaptively from {reconcile, reservation -> pending+unschedulable / scheduled(same|other node) / unschedulable / expired / deleted / bound(this|other pod), pod deleted / replaced by same name new UID (pending|old node|reservation node|third node) / scheduled, clock +5s / past TTL, controller restart}, ending with 2 reconciles per job; then the same script is re-executed with every single write k=1..n failing (nothing applied) and with every single write k applied-but-error (lost response); evaluations = executed histories (1+2n per case); non-trivial = the fault-free history evicted, reached a terminal phase and reconciled after it; distinct = (jobs, TTL, mode, final phase/reason/status, #evict calls, final reservation state, fault kind, class of the failed write, fault right after evict, reconciled after terminal)"},
-		func(c *kit.Case) {
-			r := c.R
-			cfg := c17GenCfg(r)
-			c.Op("cfg: %+v", *cfg)
+		func(c *kit.Case) { c17RunCase(c, c17GenCfg(c.R)) })
+}
 
-			// ---- fault-free history, generated adaptively
-			base := c17NewWorld(c, cfg, 0, c17NoFault)
-			base.direct = true
-			var script []c17Step
-			n := r.Range(6, 26-2*len(cfg.Jobs))
-			for i := 0; i < n; i++ {
-				if i >= 6 && base.allSettled() {
-					break // every job is terminal and has been reconciled after that: nothing more can happen
-				}
-				s := base.gen(r)
-				base.apply(len(script), s)
-				script = append(script, s)
-			}
-			for k := 0; k < 2; k++ {
-				for ji := range cfg.Jobs {
-					s := c17Step{Kind: "reconcile", Job: ji}
-					base.apply(len(script), s)
-					script = append(script, s)
-				}
-			}
-			base.finish()
-			c.Count("histories_fault_free", 1)
-			c.Count("steps_fault_free", len(script))
-			c.Count("api_writes_fault_free", base.writes)
-			evicted, terminal, after := len(base.stamps) > 0, false, false
-			for _, j := range base.jobs {
-				terminal = terminal || c17Terminal(j.lastPhase)
-				after = after || j.afterTerminal > 0
-			}
-			if evicted {
-				c.Count("fault_free_histories_with_eviction", 1)
-			}
-			if evicted && terminal && after {
-				c.NonTrivial()
-			}
-			if c.K < 3 {
-				var ss []string
-				for _, s := range script {
-					ss = append(ss, s.String())
-				}
-				c.Sample(map[string]any{"cfg": cfg, "script": ss, "api_writes": base.writeLog, "evict_stamps": base.stamps})
-			}
-
-			// ---- every single-fault variant of that history
-			for k := 1; k <= base.writes; k++ {
-				for _, kind := range []c17Fault{c17FaultFail, c17FaultLost} {
-					v := c17NewWorld(c, cfg, k, kind)
-					aborted := c17Variant(func() {
-						for i, s := range script {
-							v.apply(i, s)
-						}
-						v.finish()
-					})
-					if aborted {
-						c.Count("faulty_histories_with_violation", 1)
-					}
-					if !v.faultHit || v.faultDesc != base.writeLog[k-1] {
-						c.Harness("variant %q did not reproduce the fault-free prefix: hit=%v at %q, expected %q", v.label, v.faultHit, v.faultDesc, base.writeLog[k-1])
-					}
-					c.Evals(1)
-					c.Count("fault_positions_enumerated", 1)
-					c.Count("fault_at_"+strings.NewReplacer(" ", "_", "/", "_").Replace(c17WriteClass(v.faultDesc))+"_"+kind.String(), 1)
-					if v.faultAfterEvict {
-						c.Count("fault_hit_write_right_after_eviction", 1)
-					}
-					if len(v.stamps) > 0 {
-						c.Count("faulty_histories_with_eviction", 1)
-					}
-				}
-			}
-		})
+// The same monitor with the SHIPPED reservation interpreter (reservation.NewInterpreter, interpreter.go) instead
+// of the scripted double: Reservation objects live in the API store, the controller's interpreter creates /
+// reads / deletes them through the fault-injecting client, and the environment (scheduler, user) writes their
+// status straight into the store. The job's reservation is either created by the controller (reference written
+// by it, with the uid the API server assigned) or supplied by the user: a Reservation that exists before the
+// job, referenced by name only (empty uid - legal) or by name + uid. Every oracle clause is judged against the
+// object in the store at that instant (c17Classify).
+func TestVerifC17RealInterpreter(t *testing.T) {
+	kit.Run(t, kit.Config{Property: "C17", Unit: "real-interpreter", Quick: 130, Thorough: 5000,
+		Rule: "as unit reconcile, but with the real reservation interpreter over the fake API store (no preemption); 1-2 jobs, TTL unset 15% / 15s 55% / 1h 30%; reservation created by the controller 35% / user-supplied and referenced by name only 40% / by name+uid 25% (initially pending, scheduled on another node or on the pod's node); reservation events are status writes into the store; every single write (job writes, Reservation create/update/delete, Evict) fails once not-applied and once applied-with-lost-response"},
+		func(c *kit.Case) { c17RunCase(c, c17GenCfgReal(c.R)) })
 }
